@@ -22,7 +22,7 @@
 Universes: quick   small = 1..3 commits, every ref set, wants <= 3, (A) under all clocks;
                    n4    = 4 commits, refs = the heads or one commit, wants <= 2, (A) under the topological clock;
            thorough small with rich two-round variants (have sets of up to two hashes in each round);
-                   n4    = 4 commits, every ref set, wants <= 3, (A) under all clocks;
+                   n4    = 4 commits, every ref set, wants <= 3, (A) under the topological clock;
                    n5    = 5 commits, refs = heads or one commit, wants <= 2, a 1-in-SLICES slice of the
                            lines chosen by VERIF_SEED (content key modulo SLICES), (A) under the topological clock.
 
@@ -266,7 +266,7 @@ def universes(tier, seed):
                 ("n4", gen_cfg("NegotiateGen.n4.cfg", nmin=4, nc=4, refmode="some", maxw=2, rich=False, clocks_a=(1,))),
                 ("ladder", gen_cfg("NegotiateGen.ladder.cfg", mode="ladder", depths=(0, 2), ladder=(10, 40, 6)))]
     return [("small", gen_cfg("NegotiateGen.small.cfg", nmin=1, nc=3, refmode="all", maxw=3, rich=True)),
-            ("n4", gen_cfg("NegotiateGen.n4.cfg", nmin=4, nc=4, refmode="all", maxw=3, rich=False)),
+            ("n4", gen_cfg("NegotiateGen.n4.cfg", nmin=4, nc=4, refmode="all", maxw=3, rich=False, clocks_a=(1,))),
             ("n5", gen_cfg("NegotiateGen.n5.cfg", nmin=5, nc=5, refmode="some", maxw=2, rich=False, clocks_a=(1,),
                            slice_=(seed % SLICES, SLICES))),
             ("ladder", gen_cfg("NegotiateGen.ladder.cfg", mode="ladder", depths=(0, 1, 2), ladder=(10, 40, 2)))]
